@@ -116,7 +116,7 @@ impl std::fmt::Display for Token {
 
 fn parse_number(lex: &mut Lexer<Token>) -> String {
     let iter = lex.slice().chars().filter(|c| *c != '_');
-    if lex.slice().starts_with("0x") {
+    if lex.slice().starts_with("0x") || lex.slice().starts_with("0X") {
         iter.skip(2).collect()
     } else {
         iter.collect()
